@@ -182,8 +182,8 @@ def roots_and_workers(ctx, trees):
 def run(ctx):
     import time
     t0 = time.time()
-    n = ctx.budget(60, 360)
-    seeds = [0, 1, 2, 3] if ctx.tier == "quick" else list(range(8))
+    n = ctx.budget(60, 500)
+    seeds = [0, 1, 2, 3] if ctx.tier == "quick" else list(range(10))
     groups = gen_groups(ctx, n)
     items = []
     for gi, g in enumerate(groups):
